@@ -919,3 +919,76 @@ pub fn c11_similar() -> i32 {
     }
     report(found, tried)
 }
+
+// ---------------------------------------------------------------------------------------------
+// C13 / U-DESCTEXT: the list-shaped parts of a type description (tuple elements, enum variants, field lists) against a small reference
+// describer written from the property text, on a catalogue without repeated named types (so the expand-once policy plays no role).
+fn c13_ref(reg: &PortableRegistry, id: u32) -> Result<String, String> {
+    use scale_info::TypeDef as D;
+    let t = &reg.types[id as usize].ty;
+    let fields = |fs: &Vec<scale_info::Field<scale_info::form::PortableForm>>| -> Result<String, String> {
+        if fs.is_empty() { return Ok("()".into()); }
+        let named = fs.iter().all(|f| f.name.is_some());
+        let unnamed = fs.iter().all(|f| f.name.is_none());
+        if !named && !unnamed { return Err("mixed".into()); }
+        let mut items = vec![];
+        for f in fs { let d = c13_ref(reg, f.ty.id)?; items.push(match &f.name { Some(n) => format!("{n}: {d}"), None => d }); }
+        Ok(if named { format!("{{{}}}", items.join(",")) } else { format!("({})", items.join(",")) })
+    };
+    let name = t.path.segments.last().cloned().unwrap_or_default();
+    Ok(match &t.type_def {
+        D::Primitive(p) => match p { TypeDefPrimitive::Bool => "bool", TypeDefPrimitive::Char => "char", TypeDefPrimitive::Str => "String", TypeDefPrimitive::U8 => "u8",
+            TypeDefPrimitive::U16 => "u16", TypeDefPrimitive::U32 => "u32", TypeDefPrimitive::U64 => "u64", TypeDefPrimitive::U128 => "u128", TypeDefPrimitive::U256 => "u256",
+            TypeDefPrimitive::I8 => "i8", TypeDefPrimitive::I16 => "i16", TypeDefPrimitive::I32 => "i32", TypeDefPrimitive::I64 => "i64", TypeDefPrimitive::I128 => "i128", TypeDefPrimitive::I256 => "i256" }.to_string(),
+        D::Tuple(tu) => { let mut items = vec![]; for e in &tu.fields { items.push(c13_ref(reg, e.id)?); }
+            format!("({}{})", items.join(","), if items.len() == 1 { "," } else { "" }) }
+        D::Composite(c) => format!("struct {name}{}", fields(&c.fields)?),
+        D::Variant(v) => { let mut items = vec![]; for var in &v.variants { let f = fields(&var.fields)?; items.push(if f == "()" { var.name.clone() } else { format!("{}{f}", var.name) }); }
+            format!("enum {name}{{{}}}", items.join(",")) }
+        D::Sequence(s) => format!("Vec<{}>", c13_ref(reg, s.type_param.id)?),
+        D::Array(a) => format!("[{}; {}]", c13_ref(reg, a.type_param.id)?, a.len),
+        D::Compact(c) => format!("Compact<{}>", c13_ref(reg, c.type_param.id)?),
+        D::BitSequence(b) => format!("BitSequence({}, {})", c13_ref(reg, b.bit_order_type.id)?, c13_ref(reg, b.bit_store_type.id)?),
+    })
+}
+
+pub fn c13_text() -> i32 {
+    use TypeDefPrimitive as P;
+    let p = |x: P| ty("", vec![], prim(x));
+    let f = |n: &str, id: u32| field(Some(n), id, None);
+    let u = |id: u32| field(None, id, None);
+    // every named type is used at most once below any root (no cache hit), roots are all ids
+    let reg = registry(vec![
+        /* 0*/ p(P::U8), /* 1*/ p(P::Bool), /* 2*/ p(P::Str), /* 3*/ p(P::I32),
+        /* 4*/ ty("", vec![], tuple(vec![])), /* 5*/ ty("", vec![], tuple(vec![0])), /* 6*/ ty("", vec![], tuple(vec![0, 1])), /* 7*/ ty("", vec![], tuple(vec![0, 1, 2, 3])),
+        /* 8*/ ty("", vec![], tuple(vec![5, 4, 6])),
+        /* 9*/ ty("m::Empty", vec![], composite(vec![])), /*10*/ ty("m::N1", vec![], composite(vec![f("a", 0)])), /*11*/ ty("m::N3", vec![], composite(vec![f("a", 0), f("b", 1), f("c", 6)])),
+        /*12*/ ty("m::U1", vec![], composite(vec![u(0)])), /*13*/ ty("m::U3", vec![], composite(vec![u(0), u(5), u(2)])),
+        /*14*/ ty("m::Mixed", vec![], composite(vec![f("a", 0), u(1)])), /*15*/ ty("m::Mixed2", vec![], composite(vec![u(1), f("a", 0), f("b", 0)])),
+        /*16*/ ty("m::E0", vec![], variant(vec![])), /*17*/ ty("m::E1", vec![], variant(vec![("A", 0, vec![])])),
+        /*18*/ ty("m::E4", vec![], variant(vec![("A", 0, vec![]), ("B", 1, vec![u(0)]), ("C", 2, vec![f("p", 3), f("q", 1)]), ("D", 3, vec![u(0), u(1), u(6)])])),
+        /*19*/ ty("m::EMixed", vec![], variant(vec![("A", 0, vec![]), ("M", 1, vec![f("p", 3), u(1)])])),
+        /*20*/ ty("", vec![], seq(7)), /*21*/ ty("", vec![], arr(3, 5)), /*22*/ ty("m::Outer", vec![], composite(vec![f("x", 11), f("y", 18), f("z", 8)])),
+        /*23*/ ty("", vec![], composite(vec![u(0), u(1)])),
+        /*24*/ ty("m::N5", vec![], composite(vec![f("a", 0), f("b", 1), f("c", 2), f("d", 3), f("e", 0)])),
+        /*25*/ ty("m::U4", vec![], composite(vec![u(0), u(1), u(2), u(3)])),
+        /*26*/ ty("m::E5", vec![], variant(vec![("V", 0, vec![u(0), u(1), u(2), u(3), u(5)]), ("W", 1, vec![f("a", 0), f("b", 1), f("c", 2), f("d", 3)]), ("X", 2, vec![]), ("Y", 3, vec![u(4)]), ("Z", 4, vec![f("only", 6)])])),
+        /*27*/ ty("", vec![], tuple(vec![0, 1, 2, 3, 0, 1, 2])),
+    ]);
+    let mut tried = 0;
+    let mut found = None;
+    for id in 0..reg.types.len() as u32 {
+        tried += 1;
+        let want = c13_ref(&reg, id);
+        let got = panic::catch_unwind(|| scale_typegen_description::type_description(id, &reg, false));
+        let bad = match (got, &want) {
+            (Err(_), _) => Some("panic".to_string()),
+            (Ok(Err(e)), Ok(w)) => Some(format!("error {e}, expected {w:?}")),
+            (Ok(Ok(g)), Err(_)) => Some(format!("described as {g:?}, expected an error (named and unnamed fields mixed)")),
+            (Ok(Ok(g)), Ok(w)) if &g != w => Some(format!("described as {g:?}, expected {w:?}")),
+            _ => None,
+        };
+        if let Some(b) = bad { found = Some((format!("catalogue type #{id} ({})", reg.types[id as usize].ty.path.segments.join("::")), b)); break; }
+    }
+    report(found, tried)
+}
